@@ -353,7 +353,27 @@ func (ts *TermStore) Mul(a, b *Term) *Term {
 }
 
 // App builds an application of a named function (defined in the prelude or declared).
+var anySelectors = map[string][2]interface{}{
+	"any_itag": {"any_int", 0}, "any_ival": {"any_int", 1},
+	"any_stag": {"any_str", 0}, "any_sval": {"any_str", 1},
+	"any_ftag": {"any_flt", 0}, "any_fval": {"any_flt", 1},
+	"any_btag": {"any_bool", 0}, "any_bval": {"any_bool", 1},
+	"any_rtag": {"any_ref", 0}, "any_raddr": {"any_ref", 1},
+}
+
 func (ts *TermStore) App(fn string, sort Sort, args ...*Term) *Term {
+	// selector applied to its own constructor
+	if sel, ok := anySelectors[fn]; ok && len(args) == 1 && args[0].Op == sel[0].(string) {
+		return args[0].Args[sel[1].(int)]
+	}
+	// tester applied to a constructor
+	if strings.HasPrefix(fn, "(_ is ") && len(args) == 1 {
+		ctor := strings.TrimSuffix(strings.TrimPrefix(fn, "(_ is "), ")")
+		switch args[0].Op {
+		case "any_nil", "any_int", "any_str", "any_flt", "any_bool", "any_ref":
+			return ts.Bool(args[0].Op == ctor)
+		}
+	}
 	return ts.mk(fn, sort, args...)
 }
 
